@@ -21,7 +21,7 @@ RULE = ("Two seeded scenario kinds. (a) Tymer on a scripted tyme source: histori
         "Distinct: digest of the operation history.")
 COMPONENTS = dict(real=["hio.base.tyming.Tymer", "hio.help.timing.MonoTimer"], stub=["tyme source (scripted closure)", "wall clock (SimClock)"])
 ASSUMPTIONS = ["MonoTimer(retro=True) only (retro=False documents raising on a retrograde)", "no forward wall-clock jumps"]
-PROBES = ["mono_steady_arithmetic_checked", "tymer_rewind", "tymer_restart", "tymer_wind", "tymer_start_offset", "mono_backward_between_reads", "mono_backward_then_start",
+PROBES = ["tymer_rewound_with_same_source", "strict_timer_refused", "mono_steady_arithmetic_checked", "tymer_rewind", "tymer_restart", "tymer_wind", "tymer_start_offset", "mono_backward_between_reads", "mono_backward_then_start",
           "mono_expired_then_backward", "mono_restart"]
 BOUNDS = dict(quick=dict(ops=30), thorough=dict(ops=80))
 TIERS = dict(quick=dict(cases=150000, wall=60.0), thorough=dict(cases=5000000, wall=420.0))
@@ -89,17 +89,23 @@ def tymer_case(tape, tier, res):
             restarts += 1
             res.probes["tymer_restart"] += 1
         elif op == 4:
-            base = [tape.pick("wind_t", [0.0, 3.0, 50.5])]
-            now = base
-            tymth2 = (lambda b: (lambda: b[0]))(base)
-            tymer.wind(tymth2)
+            if tape.flag("wind_same_source", 1, 3):
+                # wound again with the very tyme source it already has (what every re-entered doer does to its timers): the
+                # period starts afresh at the current tyme all the same
+                tymer.wind(tymth)
+                res.probes["tymer_rewound_with_same_source"] += 1
+            else:
+                base = [tape.pick("wind_t", [0.0, 3.0, 50.5])]
+                now = base
+                tymth = (lambda b: (lambda: b[0]))(base)
+                tymer.wind(tymth)
             cur_f = m_stop - m_start
             cur_x = x_stop - x_start
             m_start = now[0]
             x_start = Fraction(m_start)
             m_stop = m_start + cur_f
             x_stop = x_start + cur_x
-            hist.append(("wind", base[0]))
+            hist.append(("wind", now[0]))
             res.probes["tymer_wind"] += 1
         else:
             hist.append(("read",))
